@@ -12,6 +12,12 @@ Model (all regenerated from `coresymbolic.py` on every run):
 interpreted by the hand-written Model/SymFill.lean (tied to the real class by
 the correspondence check of tools/props/C15.py).
 
+Extended by Props/C15b.lean (same model): the fill theorems for EVERY `n`
+(T3 below is the kernel-decided instance for n = 2, 3, 4), request-order
+independence over all request histories with proven branch coherence (T4 below
+is the two-state instance), the flag theorems for every generated line, and
+`IsMetric` derived from the single equation `gdown · gup = 1`.
+
 Hypotheses used, and nothing else:
   `IsDeriv D`    the coordinate derivatives are additive, Leibniz, commuting
   `IsMetric g gup`  `gdown` symmetric, `gup` its two-sided inverse (the inverse
